@@ -76,7 +76,7 @@ def build(sections: List[Section], bits: int = 64, symbols: Optional[List[Tuple[
     shdrs = [sh(0, SHT_NULL, 0, 0, 0, 0, align=0)]
     for s, o in zip(sections, layout):
         flags = SHF_ALLOC | (SHF_EXEC if s.exec_ else SHF_WRITE)
-        shdrs.append(sh(name_off[s.name], SHT_PROGBITS, flags, s.addr, o, len(s.data), align=1))
+        shdrs.append(sh(name_off[s.name], SHT_PROGBITS, flags, s.addr, o, getattr(s, "claimed_size", None) or len(s.data), align=1))
     shdrs.append(sh(name_off[".shstrtab"], SHT_STRTAB, 0, 0, shstr_off, len(shstr)))
     if symbols:
         shdrs.append(sh(name_off[".symtab"], SHT_SYMTAB, 0, 0, symtab_off, len(symtab), link=nsec - 1, info=1,
